@@ -86,7 +86,7 @@ class HSFZConnection:
         self.src_addr = src_addr
         self.dst_addr = dst_addr
         self.ack_timeout = ack_timeout
-        self._read_queue: asyncio.Queue[HSFZDiagFrame | int] = asyncio.Queue()
+        self._read_queue: asyncio.Queue[HSFZDiagFrame | int | None] = asyncio.Queue()
         self._read_task = asyncio.create_task(self._read_worker())
         self._read_task.add_done_callback(
             handle_task_error,
@@ -185,6 +185,9 @@ class HSFZConnection:
             logger.debug(f"read worker received EOF: {e}")
         except Exception as e:
             logger.critical(f"read worker died: {e}")
+        finally:
+            # No further frames will arrive; wake up consumers waiting for one.
+            self._read_queue.put_nowait(None)
 
     async def _unpack_frame(self, frame: HSFZDiagFrame | int) -> HSFZDiagFrame:
         # I little hack, but it is either a tuple or an int….
@@ -204,7 +207,12 @@ class HSFZConnection:
             else:
                 raise RuntimeError("connection already closed")
 
-        return await self._read_queue.get()
+        frame = await self._read_queue.get()
+        if frame is None:
+            # The read worker is gone; keep the marker for other consumers.
+            self._read_queue.put_nowait(None)
+            raise ConnectionResetError("connection lost")
+        return frame
 
     def _requeue(self, packets: list[Any]) -> None:
         # Skipped packets go back in front of everything which arrived in the
